@@ -21,6 +21,7 @@ KNOWN_BY_TAG = {
     # tag of the reading's run -> (finding id, mismatch kinds it explains)
     "do-action-after-provisional-end": ("F-01f", {"event-data", "final-data"}),
     "end-during-wait-in-foreach": ("F-01g", {"event-order"}),
+    "case-provisional-match": ("F-01k", {"event-data", "final-data", "event-order"}),
 }
 
 
